@@ -338,6 +338,12 @@ fn gen_members(rng: &mut Rng, sandbox: &Path) -> Vec<Member> {
         "a/./b.dlt".into(),
         "a/c/../b.dlt".into(),
         "inside.dlt".into(),
+        // names that differ from the catalogue's patterns only in letter case (patterns are case sensitive)
+        "UPPER.DLT".into(),
+        "A/b.dlt".into(),
+        "a/B.DLT".into(),
+        "X.BIN".into(),
+        "DATA1.BIN".into(),
     ];
     let mut v = Vec::new();
     for _ in 0..n {
